@@ -6,6 +6,7 @@ package main
 import (
 	"fmt"
 	"math"
+	"math/big"
 	"reflect"
 	"strings"
 	"time"
@@ -48,11 +49,17 @@ func coqOptBytes(b []byte) string {
 	return "(Some " + coqBytes(b) + ")"
 }
 
+// coqTime prints the exact number of nanoseconds since 1970 (UnixNano is only defined between 1677 and 2262)
 func coqTime(t time.Time) string {
 	if t.IsZero() {
 		return "None"
 	}
-	return "(Some " + coqZ(t.UnixNano()) + ")"
+	ns := new(big.Int).Mul(big.NewInt(t.Unix()), big.NewInt(1000000000))
+	ns.Add(ns, big.NewInt(int64(t.Nanosecond())))
+	if ns.Sign() < 0 {
+		return "(Some (" + ns.String() + "))"
+	}
+	return "(Some " + ns.String() + ")"
 }
 
 func f32bits(f float32) uint64 {
